@@ -12,20 +12,22 @@ theorem doWhile_n (p : Nat) (body : Stmt) (test : Kids) (tt : Bool) :
 
 theorem doWhileTail_ok (live tt : Bool) (body : Stmt) (x b' : A) (hb : PostS live body x b') :
     TailOK live (((((body.compl []).n || (body.compl []).c) && !tt)) || (body.compl []).b) body.pos [] b'
-      (doWhileTail tt body.pos b') := by
+      (doWhileTail tt body.isDeclOrExpr body.pos b') := by
   unfold doWhileTail
   simp only
-  by_cases h1 : (isForcedEnd (b'.info.endAt body.pos) && !(b'.sc.foundBreak == some none) && !b'.sc.foundContinue) = true
+  have hsf := @stmtEnd_forced body.isDeclOrExpr b'.info body.pos
+  generalize stmtEnd body.isDeclOrExpr b'.info body.pos = er at hsf
+  by_cases h1 : (isForcedEnd er && !(b'.sc.foundBreak == some none) && !b'.sc.foundContinue) = true
   · simp only [h1, if_true]
     simp only [Bool.and_eq_true, Bool.not_eq_true'] at h1
-    rcases her : b'.info.endAt body.pos with _ | e
+    rcases her : er with _ | e
     · rw [her] at h1; simp at h1
     · simp only
       refine ⟨fun q hq _ => markAsEnd_info_other _ _ _ _ hq, fun q => by simp, by simp, by simp, ⟨e, rfl⟩, ?_, by simp⟩
       intro _
       have hbk := not_break_dead hb h1.1.2
       have hct := not_continue_dead hb h1.2
-      have hnn := hb.p4 (stops_of_forced h1.1.1)
+      have hnn := hb.p4 (stops_of_forced (hsf h1.1.1).1)
       revert hbk hct hnn
       cases live <;> cases (body.compl []).n <;> cases (body.compl []).b <;> cases (body.compl []).c <;> simp
   · simp only [h1, Bool.false_eq_true, if_false]
@@ -51,14 +53,14 @@ theorem doWhile_ok (live : Bool) (p : Nat) (body : Stmt) (test : Kids) (tt : Boo
   have hpbp : p ≠ body.pos := fun e => hnd.1 (e ▸ body.pos_mem)
   have hv : visitStmt (.doWhileS p body test tt) a =
       visitKids test (doWhileAfter p body.pos
-        (withChild .loop body.pos (fun x => doWhileTail tt body.pos (visitStmt body x)) (flagA a p .other))) := by
+        (withChild .loop body.pos (fun x => doWhileTail tt body.isDeclOrExpr body.pos (visitStmt body x)) (flagA a p .other))) := by
     simp [visitStmt, flagA]
   rw [hv]
   obtain ⟨hn, hb0, hc0⟩ := doWhile_n p body test tt
-  have hc := loopCore live _ p body.pos body [] (doWhileTail tt body.pos) (flagA a p .other) rfl
+  have hc := loopCore live _ p body.pos body [] (doWhileTail tt body.isDeclOrExpr body.pos) (flagA a p .other) rfl
     hpre.hs (fun q hq => by rw [flagA_endAt]; exact hpre.fresh q (List.mem_cons_of_mem _ hq)) hpre.nodup ih
     (fun b' hb => doWhileTail_ok live tt body _ b' hb)
-  generalize withChild .loop body.pos (fun x => doWhileTail tt body.pos (visitStmt body x)) (flagA a p .other) = r at hc
+  generalize withChild .loop body.pos (fun x => doWhileTail tt body.isDeclOrExpr body.pos (visitStmt body x)) (flagA a p .other) = r at hc
   -- the optional extra mark at `p`
   have hm : ∃ r2, doWhileAfter p body.pos r = r2 ∧ r2.sc.foundBreak = r.sc.foundBreak ∧ r2.sc.foundContinue = r.sc.foundContinue ∧
         (∀ q, r2.info.ur q = r.info.ur q) ∧ (∀ q, q ≠ p → r2.info q = r.info q) ∧
@@ -115,7 +117,7 @@ theorem for_n (p : Nat) (i u t : Kids) (hasTest tt : Bool) (body : Stmt) :
   simp [Stmt.compl]
 
 theorem forTail_ok (live hasTest tt : Bool) (p : Nat) (body : Stmt) (x b' : A) (hb : PostS live body x b') :
-    TailOK live ((hasTest && !tt) || (body.compl []).b) body.pos [p] b' (forTail p body.pos hasTest tt b') := by
+    TailOK live ((hasTest && !tt) || (body.compl []).b) body.pos [p] b' (forTail p body.pos body.isDeclOrExpr hasTest tt b') := by
   unfold forTail
   by_cases hent : forEnters hasTest tt b' = true
   · -- the loop is entered unconditionally and cannot be left by `break`
@@ -144,7 +146,7 @@ theorem for_ok (live : Bool) (p : Nat) (i u t : Kids) (hasTest tt : Bool) (body 
     PostS live (.forS p i u t hasTest tt body) a (visitStmt (.forS p i u t hasTest tt body) a) := by
   have hnd := List.nodup_cons.mp hpre.nodup
   have hv : visitStmt (.forS p i u t hasTest tt body) a =
-      withChild .loop body.pos (fun x => forTail p body.pos hasTest tt (visitStmt body x))
+      withChild .loop body.pos (fun x => forTail p body.pos body.isDeclOrExpr hasTest tt (visitStmt body x))
         (visitKids t (visitKids u (visitKids i (flagA a p .other)))) := by
     simp [visitStmt, flagA]
   rw [hv]
@@ -156,11 +158,11 @@ theorem for_ok (live : Bool) (p : Nat) (i u t : Kids) (hasTest tt : Bool) (body 
   have hfresh1 : ∀ q, a1.info.endAt q = a.info.endAt q := fun q => by
     rw [endAt_eq_of_info_eq (congrFun hs1.info q), flagA_endAt]
   obtain ⟨hn, hb0, hc0⟩ := for_n p i u t hasTest tt body
-  have hc := loopCore live _ p body.pos body [p] (forTail p body.pos hasTest tt) a1 rfl
+  have hc := loopCore live _ p body.pos body [p] (forTail p body.pos body.isDeclOrExpr hasTest tt) a1 rfl
     (fun h => hpre.hs (by rw [← he1]; exact h))
     (fun q hq => by rw [hfresh1]; exact hpre.fresh q (List.mem_cons_of_mem _ hq)) hpre.nodup ih
     (fun b' hb => forTail_ok live hasTest tt p body _ b' hb)
-  generalize withChild .loop body.pos (fun x => forTail p body.pos hasTest tt (visitStmt body x)) a1 = r at hc
+  generalize withChild .loop body.pos (fun x => forTail p body.pos body.isDeclOrExpr hasTest tt (visitStmt body x)) a1 = r at hc
   refine ⟨⟨?_, ?_, ?_, ?_, ?_, ?_, ?_, ?_⟩, ?_⟩
   · intro hst; rw [hn]; exact hc.stop hst
   · simp [hb0]
